@@ -188,7 +188,7 @@ func c12Prepare(sc c12Scenario) *c12Run {
 				res, err = distiller.ApplyForReader(strings.NewReader(src), opts)
 			} else if th.entry == "url" {
 				// through the in-process transport installed by c12Check / RacePassMain
-				res, err = distiller.ApplyForURL(fetch, 5*time.Second, opts)
+				res, err = distiller.ApplyForURL(fetch, 10*time.Minute, opts) // the client timeout is wall-clock time: far above any pause the scheduler can cause
 			} else {
 				res, err = distiller.Apply(tree, opts)
 			}
